@@ -394,7 +394,10 @@ class T(object):
     return v.__index__()
 
   def __repr__(self):
-    return 'T(%r)' % (self.v,)
+    # (a plain str even when the wrapped value is symbolic: CPython requires __str__ to
+    # return an exact str, e.g. for print)
+    from crosshair.core import realize
+    return realize('T(%r)' % (self.v,))
 
   def __hash__(self):
     return hash(self.v)
